@@ -958,8 +958,13 @@ def _describe(e: Execution, k: int) -> str:
 def main(tier: str) -> int:
     run = Run(PROP, tier)
     rng = random.Random(run.seed)
+    # (VERIF_C11_STORES=pp,fs ...: a debugging aid, the evidence says which were run)
     stores = [s for s in (os.environ.get('VERIF_C11_STORES') or 'dict,pp,fs').split(',')
               if s in STORES]
+    run.notes['stores'] = stores
+    if not stores:
+        run.machinery('VERIF_C11_STORES names no store')
+        return run.finish()
     run.cov['rule'] = (
         'executions = behaviours of Namespace.tla (edge cover of the dumped '
         'state graphs, -simulate behaviours, the matcher enumeration; one set per '
@@ -1055,6 +1060,8 @@ def main(tier: str) -> int:
             return run.finish()
     for cfg, keys in parts.items():
         # the runs of one configuration, put together
+        if not keys:
+            continue
         by, stats, gres = {}, {}, None
         for key in keys:
             b, st_, g = results.pop(key)
@@ -1082,6 +1089,8 @@ def main(tier: str) -> int:
     graphs = {}
     sliced = {}
     for cfg, max_len in tours:
+        if cfg not in results:      # none of its stores is run
+            continue
         by, stats, gres = results[cfg]
         if gres is None or not gres.ok:
             run.machinery(f'{cfg}: {gres and (gres.violated or gres.error)}')
@@ -1101,7 +1110,7 @@ def main(tier: str) -> int:
                     plan.append(Execution('tour:' + cfg, conc, init, steps, store=st))
             if st != 'dict' and npaths:
                 sliced[f'tour:{cfg}@{st}'] = f'{len(by.get(st, []))} of {npaths} paths'
-    by, stats, gres = results[MATCH[tier]]
+    by, stats, gres = results.get(MATCH[tier]) or ({}, {}, None)
     if gres is None or not gres.ok:
         run.machinery(f'{MATCH[tier]}: {gres and (gres.violated or gres.error)}')
         return run.finish()
@@ -1208,6 +1217,12 @@ def main(tier: str) -> int:
                     f'is not one RFC 3501 allows in the state reached'
                     + (f' ({e.drift["why"]})' if last else ''))
             run.violation(what, e.replay_dict(reached + 1), None)
+    summary: dict = {}
+    for d in run.drift:
+        k = '%s %s predicted:%s' % (d['store'], d['cmd'][0],
+                                    ','.join(d['model']['dev']) or 'no-deviation')
+        summary[k] = summary.get(k, 0) + 1
+    run.notes['drift_summary'] = summary
     if len(drifted) > JUDGE_MAX:
         run.machinery(f'{len(drifted)} executions differ from the model; only {JUDGE_MAX} judged')
     by_dev: dict = {}
